@@ -32,17 +32,45 @@ def _scratch(tag: str) -> Path:
 
 
 def _freeze(ts: str):
-    """Replace the `datetime` name used by create_output_directory by a frozen clock."""
+    """Freeze the clock seen by pyxel's output code.  However the code under test spells it - `from datetime import
+    datetime`, `import datetime`, `import datetime as dt`, an alias of the class, in outputs.py or in another module
+    of pyxel.outputs it was moved to - every module-level name of `pyxel.outputs*` bound to the datetime class or the
+    datetime module is rebound to a frozen subclass / a proxy module (the import style is not a property-relevant
+    observable)."""
+    import datetime as _dtmod
+    import sys
+    import types
+
     import pyxel.outputs.outputs as po
 
     frozen = _real_datetime.strptime(ts, "%Y%m%d_%H%M%S")
 
-    class FrozenDateTime:
-        @staticmethod
-        def now(tz=None):
+    class FrozenDateTime(_real_datetime):
+        @classmethod
+        def now(cls, tz=None):
+            return frozen if tz is None else frozen.replace(tzinfo=tz)
+
+        @classmethod
+        def today(cls):
             return frozen
 
-    po.datetime = FrozenDateTime
+        @classmethod
+        def utcnow(cls):
+            return frozen
+
+    proxy = types.ModuleType("datetime")
+    proxy.__dict__.update({k: v for k, v in vars(_dtmod).items() if not k.startswith("__")})
+    proxy.datetime = FrozenDateTime
+    for name, mod in list(sys.modules.items()):
+        if mod is None or not (name == "pyxel.outputs" or name.startswith("pyxel.outputs.")):
+            continue
+        for k, v in list(vars(mod).items()):
+            if v is _real_datetime or (isinstance(v, type) and issubclass(v, _real_datetime)
+                                       and v.__name__ == "FrozenDateTime"):
+                setattr(mod, k, FrozenDateTime)
+            elif v is _dtmod or (isinstance(v, types.ModuleType) and v.__name__ == "datetime" and v is not _dtmod
+                                 and hasattr(v, "datetime")):
+                setattr(mod, k, proxy)
     return po
 
 
